@@ -1,4 +1,4 @@
-HOOK_COMMITS = ["e0d714e hook: verif-tagged yield points in the fsloop consumer gap and after the close announcement", "7a27e62 hook: verif-tagged export of the SSH sandbox start-up script builder (VerifInitSequence)", "0abfaaa hook: verif-tagged yield point between the done test and the close in context scope Stop (plain and isolated)"]
+HOOK_COMMITS = ["e0d714e hook: verif-tagged yield points in the fsloop consumer gap and after the close announcement", "7a27e62 hook: verif-tagged export of the SSH sandbox start-up script builder (VerifInitSequence)", "0abfaaa hook: verif-tagged yield point between the done test and the close in context scope Stop (plain and isolated)", "810b47e hook: verif-tagged yield points in the memfs check-then-create windows"]
 NOTES = ("All checks are property-based tests / fuzzing (rapid v1.3.0, exhaustive small-alphabet enumeration, native go fuzz in thorough). "
          "Driver: ./check <ID> [--tier quick|thorough] | --replay <file>. Exit 0 held / 1 VIOLATION / 2 inconclusive. "
          "known_findings.json lists repaired (fixed:) and open findings; open ones print KNOWN-FINDING and their cause class is excluded from generation.")
